@@ -1,17 +1,23 @@
 // Command scfacts reads core/statecache/*.go of the tree named by VERIF_REPO (default /repo) with go/ast (syntactic,
 // no type checking) and writes lean/Verif/Gen/StateCacheFacts.lean:
 //
-//   - constants: per-key LRU capacity (argument of lru.New in StateCache.commit), maxHisDepth, outer LRU capacity;
-//   - clone facts: every statement that stores a value into a cache map / LRU (TransactionCache.Set/Remove,
-//     BlockCache.Set/setValue, StateCache.commit, StateCache.Get) and every `return <value>, true` of the four Get
-//     methods, classified by where the stored / returned value comes from:
-//     "clone"     the expression is x.Clone() (or a composite literal whose data field is x.Clone(), or a variable
-//     whose .data field was assigned x.Clone() earlier in the function);
-//     "delegate"  the return forwards the result of another cache layer's Get;
-//     "tombstone" a composite literal that carries no client value (deleted: true, constant or no data);
-//     "internal"  a value read from the same LRU in the same function (the memo of StateCache.Get);
-//     "none"      anything else  -> ok = false;
-//   - lock facts: StateCache.commit starts with sc.lock.Lock(); defer sc.lock.Unlock(); StateCache.Get takes no lock.
+//   - constants: the LRU capacities and maxHisDepth (found through the `&StateCache{...}` literal of the constructor and
+//     the remaining `lru.New(n)` calls of the package, with local / package constants evaluated);
+//   - clone facts: every statement of the package that stores something into a map or an LRU (`m[k] = v`,
+//     `x.Add / ContainsOrAdd / PeekOrAdd(k, v)`) and every `return` of a function whose first result is a `Value`,
+//     classified by WHERE THE VALUE COMES FROM — a small intra-procedural def-use analysis, independent of how the
+//     statement is written:
+//     "clone"     x.Clone(); a local all of whose assignments are clones; a call of a package helper all of whose
+//     returns are clones; `valueNode{data: <clone>}`; a valueNode variable after `v.data = <clone>`; a parameter of
+//     an unexported function that receives a clone at every call site;
+//     "delegate"  the result of another cache layer's Get (already a private copy made by that layer);
+//     "tombstone" a composite literal that carries no client value (no data, nil, or an empty placeholder literal);
+//     "internal"  a value read out of a cache map / LRU in the same function (moved between cache-internal containers);
+//     "nonvalue"  not a client value at all (strings, the per-key LRU itself, ...);
+//     "none"      anything else, e.g. a parameter of an exported method, or a variable that is both stored into a
+//     cache and returned to the caller (one object in two places).
+//     Every site also lists the API entry points from which it is reachable through calls of unexported package
+//     functions (`roots`), so that moving a statement into a helper keeps it attributed to Set / Get / Commit.
 //
 // Usage: scfacts <output.lean>
 package main
@@ -32,9 +38,26 @@ import (
 type site struct {
 	fn, kind, expr, class string
 	line                  int
+	roots                 []string
 }
 
-var fset = token.NewFileSet()
+type fnInfo struct {
+	name, bare, recvType, recvVar string
+	decl                          *ast.FuncDecl
+	params                        []param
+	exported                      bool
+}
+
+type param struct{ name, typ string }
+
+var (
+	fset      = token.NewFileSet()
+	funcs     = map[string]*fnInfo{}
+	byBare    = map[string][]*fnInfo{}
+	pkgConsts = map[string]ast.Expr{}
+	apiRoots  = []string{"TransactionCache.Set", "TransactionCache.Remove", "TransactionCache.Get", "TransactionCache.Commit",
+		"BlockCache.Set", "BlockCache.Get", "BlockCache.Commit", "QueryBlockCache.Get", "StateCache.Get"}
+)
 
 func src(n ast.Node) string {
 	var sb strings.Builder
@@ -51,76 +74,457 @@ func isCloneCall(e ast.Expr) bool {
 	return ok && s.Sel.Name == "Clone" && len(c.Args) == 0
 }
 
-func recvName(fd *ast.FuncDecl) string {
-	if fd.Recv == nil || len(fd.Recv.List) == 0 {
-		return ""
-	}
-	t := fd.Recv.List[0].Type
-	if st, ok := t.(*ast.StarExpr); ok {
-		t = st.X
-	}
-	if id, ok := t.(*ast.Ident); ok {
-		return id.Name
-	}
-	return ""
+func isValueType(t string) bool {
+	return t == "Value" || t == "valueNode" || t == "interface{}" || t == "any"
 }
 
-// classify a stored expression inside function body fd
-func classifyStored(fd *ast.FuncDecl, e ast.Expr, pos token.Pos) string {
-	switch x := e.(type) {
-	case *ast.CompositeLit:
-		hasData := false
-		for _, el := range x.Elts {
-			kv, ok := el.(*ast.KeyValueExpr)
-			if !ok {
-				return "none"
-			}
-			if k, ok := kv.Key.(*ast.Ident); ok && k.Name == "data" {
-				hasData = true
-				if isCloneCall(kv.Value) {
-					return "clone"
-				}
-				// a constant placeholder such as &EmptyValue{} carries no client value
-				if u, ok := kv.Value.(*ast.UnaryExpr); ok {
-					if cl, ok := u.X.(*ast.CompositeLit); ok && len(cl.Elts) == 0 {
-						continue
-					}
-				}
-				return "none"
+// ---------------------------------------------------------------------------------------------- provenance classes
+
+// join of the classes of several definitions that may all reach a use
+func join(cs []string) string {
+	if len(cs) == 0 {
+		return "none"
+	}
+	set := map[string]bool{}
+	for _, c := range cs {
+		set[c] = true
+	}
+	if len(set) == 1 {
+		return cs[0]
+	}
+	if set["none"] || set["nonvalue"] {
+		return "none"
+	}
+	if set["internal"] && set["delegate"] {
+		return "none"
+	}
+	if set["internal"] {
+		return "internal"
+	}
+	if set["delegate"] {
+		return "delegate"
+	}
+	return "clone" // clone + tombstone
+}
+
+type ctx struct {
+	f     *fnInfo
+	depth int
+	busy  map[string]bool
+}
+
+func (c ctx) deeper(f *fnInfo) (ctx, bool) {
+	if c.depth >= 6 {
+		return c, false
+	}
+	return ctx{f, c.depth + 1, c.busy}, true
+}
+
+// helpers a call may resolve to: plain package functions, unexported methods by name, methods on the own receiver
+func (c ctx) callees(call *ast.CallExpr) []*fnInfo {
+	switch fn := call.Fun.(type) {
+	case *ast.Ident:
+		if f, ok := funcs[fn.Name]; ok {
+			return []*fnInfo{f}
+		}
+	case *ast.SelectorExpr:
+		m := fn.Sel.Name
+		if id, ok := fn.X.(*ast.Ident); ok && c.f != nil && id.Name == c.f.recvVar && c.f.recvVar != "" {
+			if f, ok := funcs[c.f.recvType+"."+m]; ok {
+				return []*fnInfo{f}
 			}
 		}
-		_ = hasData
-		return "tombstone"
+		if !ast.IsExported(m) {
+			var out []*fnInfo
+			for _, f := range byBare[m] {
+				if f.recvType != "" {
+					out = append(out, f)
+				}
+			}
+			return out
+		}
+	}
+	return nil
+}
+
+// class of the first result of function f: join over its return statements (nil results skipped)
+func (c ctx) summary(f *fnInfo) string {
+	key := "ret:" + f.name
+	if c.busy[key] {
+		return "none"
+	}
+	c2, ok := c.deeper(f)
+	if !ok {
+		return "none"
+	}
+	c.busy[key] = true
+	defer delete(c.busy, key)
+	var cs []string
+	ast.Inspect(f.decl.Body, func(n ast.Node) bool {
+		if _, ok := n.(*ast.FuncLit); ok {
+			return false
+		}
+		r, ok := n.(*ast.ReturnStmt)
+		if !ok {
+			return true
+		}
+		if len(r.Results) == 0 {
+			cs = append(cs, "none")
+			return true
+		}
+		if id, ok := r.Results[0].(*ast.Ident); ok && id.Name == "nil" {
+			return true
+		}
+		cs = append(cs, c2.classAt(r.Results[0], r.Pos()))
+		return true
+	})
+	return join(cs)
+}
+
+// class of parameter #i of the unexported function f: join over the arguments at all call sites in the package
+func (c ctx) paramClass(f *fnInfo, i int) string {
+	if f.exported || c.depth >= 6 {
+		return "none"
+	}
+	key := fmt.Sprintf("par:%s:%d", f.name, i)
+	if c.busy[key] {
+		return "none"
+	}
+	c.busy[key] = true
+	defer delete(c.busy, key)
+	var cs []string
+	for _, g := range funcs {
+		cg := ctx{g, c.depth + 1, c.busy}
+		ast.Inspect(g.decl.Body, func(n ast.Node) bool {
+			call, ok := n.(*ast.CallExpr)
+			if !ok {
+				return true
+			}
+			for _, t := range cg.callees(call) {
+				if t == f && i < len(call.Args) {
+					cs = append(cs, cg.classAt(call.Args[i], call.Pos()))
+				}
+			}
+			return true
+		})
+	}
+	return join(cs)
+}
+
+// every definition of the local variable `name` in the function: class of what is assigned
+func (c ctx) localDefs(name string) []string {
+	var cs []string
+	add := func(e ast.Expr, pos token.Pos) { cs = append(cs, c.classAt(e, pos)) }
+	ast.Inspect(c.f.decl.Body, func(n ast.Node) bool {
+		switch x := n.(type) {
+		case *ast.AssignStmt:
+			for i, l := range x.Lhs {
+				id, ok := l.(*ast.Ident)
+				if !ok || id.Name != name {
+					continue
+				}
+				switch {
+				case len(x.Rhs) == len(x.Lhs):
+					add(x.Rhs[i], x.Pos())
+				case len(x.Rhs) == 1 && i == 0:
+					add(x.Rhs[0], x.Pos()) // v, ok := m[k] / x.(T) / f()
+				default:
+					cs = append(cs, "nonvalue") // the ok / error result
+				}
+			}
+		case *ast.ValueSpec:
+			for i, id := range x.Names {
+				if id.Name != name {
+					continue
+				}
+				if i < len(x.Values) {
+					add(x.Values[i], x.Pos())
+				} else {
+					cs = append(cs, "tombstone") // zero value: carries nothing
+				}
+			}
+		case *ast.RangeStmt:
+			if id, ok := x.Key.(*ast.Ident); ok && id.Name == name {
+				cs = append(cs, "nonvalue")
+			}
+			if id, ok := x.Value.(*ast.Ident); ok && id.Name == name {
+				cs = append(cs, "internal") // an element of a container of the cache
+			}
+		}
+		return true
+	})
+	return cs
+}
+
+// class of expression e used at position pos inside c.f
+func (c ctx) classAt(e ast.Expr, pos token.Pos) string {
+	switch x := e.(type) {
+	case *ast.ParenExpr:
+		return c.classAt(x.X, pos)
+	case *ast.BasicLit:
+		return "nonvalue"
+	case *ast.CallExpr:
+		if isCloneCall(x) {
+			return "clone"
+		}
+		if s, ok := x.Fun.(*ast.SelectorExpr); ok {
+			if id, ok := s.X.(*ast.Ident); ok && id.Name == "lru" {
+				return "nonvalue"
+			}
+		}
+		if id, ok := x.Fun.(*ast.Ident); ok && len(x.Args) == 1 && (id.Name == "Value" || id.Name == "valueNode") {
+			return c.classAt(x.Args[0], pos) // conversion
+		}
+		if ts := c.callees(x); len(ts) > 0 {
+			var cs []string
+			for _, t := range ts {
+				cs = append(cs, c.summary(t))
+			}
+			return join(cs)
+		}
+		if s, ok := x.Fun.(*ast.SelectorExpr); ok && (s.Sel.Name == "Get" || s.Sel.Name == "Peek") {
+			return "delegate"
+		}
+		return "none"
+	case *ast.CompositeLit:
+		if t, ok := x.Type.(*ast.Ident); !ok || t.Name != "valueNode" {
+			return "none"
+		}
+		var data ast.Expr
+		for i, el := range x.Elts {
+			if kv, ok := el.(*ast.KeyValueExpr); ok {
+				if k, ok := kv.Key.(*ast.Ident); ok && k.Name == "data" {
+					data = kv.Value
+				}
+			} else if i == 0 {
+				data = el
+			}
+		}
+		if data == nil {
+			return "tombstone"
+		}
+		if id, ok := data.(*ast.Ident); ok && id.Name == "nil" {
+			return "tombstone"
+		}
+		if u, ok := data.(*ast.UnaryExpr); ok && u.Op == token.AND {
+			if cl, ok := u.X.(*ast.CompositeLit); ok && len(cl.Elts) == 0 {
+				return "tombstone" // a constant placeholder such as &EmptyValue{}
+			}
+		}
+		return c.classAt(data, pos)
+	case *ast.UnaryExpr:
+		if x.Op == token.AND {
+			if cl, ok := x.X.(*ast.CompositeLit); ok && len(cl.Elts) == 0 {
+				return "tombstone" // a fresh empty placeholder such as &EmptyValue{}: no client value
+			}
+		}
+		return "none"
+	case *ast.TypeAssertExpr:
+		if x.Type != nil && isValueType(src(x.Type)) {
+			return "internal" // taken out of an interface{} container: an LRU
+		}
+		return "nonvalue"
+	case *ast.IndexExpr:
+		return "internal"
+	case *ast.SelectorExpr:
+		if x.Sel.Name == "data" {
+			return c.classAt(x.X, pos)
+		}
+		return "nonvalue" // valueNode.data is the only field of the package that holds a client value
 	case *ast.Ident:
-		// variable: look for `<x>.data = <..>.Clone()` or `<x> ... := <lru>.Get/.(valueNode)` before pos
-		cls := "none"
-		ast.Inspect(fd.Body, func(n ast.Node) bool {
+		switch x.Name {
+		case "nil", "true", "false":
+			return "nonvalue"
+		}
+		if c.f == nil {
+			return "none"
+		}
+		if x.Name == c.f.recvVar {
+			return "nonvalue"
+		}
+		cls := ""
+		for i, p := range c.f.params {
+			if p.name == x.Name {
+				if !isValueType(p.typ) {
+					return "nonvalue"
+				}
+				cls = c.paramClass(c.f, i)
+			}
+		}
+		if cls == "" {
+			if _, ok := pkgConsts[x.Name]; ok {
+				return "nonvalue"
+			}
+			key := "loc:" + c.f.name + ":" + x.Name
+			if c.busy[key] {
+				return "none" // defined in terms of itself
+			}
+			c.busy[key] = true
+			defs := c.localDefs(x.Name)
+			delete(c.busy, key)
+			if len(defs) == 0 {
+				return "none"
+			}
+			cls = join(defs)
+		}
+		// refinement: the last `<x>.data = E` written before the use decides what the node carries
+		var last *ast.AssignStmt
+		var lastRhs ast.Expr
+		ast.Inspect(c.f.decl.Body, func(n ast.Node) bool {
 			as, ok := n.(*ast.AssignStmt)
 			if !ok || as.Pos() >= pos {
 				return true
 			}
 			for i, l := range as.Lhs {
-				if sel, ok := l.(*ast.SelectorExpr); ok {
-					if id, ok := sel.X.(*ast.Ident); ok && id.Name == x.Name && sel.Sel.Name == "data" && i < len(as.Rhs) && isCloneCall(as.Rhs[i]) {
-						cls = "clone"
-					}
-				}
-				if id, ok := l.(*ast.Ident); ok && id.Name == x.Name && i < len(as.Rhs) {
-					if ta, ok := as.Rhs[i].(*ast.TypeAssertExpr); ok {
-						if _, ok := ta.X.(*ast.Ident); ok && cls == "none" {
-							cls = "internal"
-						}
+				if sel, ok := l.(*ast.SelectorExpr); ok && sel.Sel.Name == "data" && i < len(as.Rhs) {
+					if id, ok := sel.X.(*ast.Ident); ok && id.Name == x.Name && (last == nil || as.Pos() > last.Pos()) {
+						last, lastRhs = as, as.Rhs[i]
 					}
 				}
 			}
 			return true
 		})
+		if last != nil {
+			if isCloneCall(lastRhs) {
+				return "clone"
+			}
+			return c.classAt(lastRhs, last.Pos())
+		}
 		return cls
 	}
-	if isCloneCall(e) {
-		return "clone"
-	}
 	return "none"
+}
+
+// the local variable a stored / returned expression is made of, if any: x, x.data, valueNode{data: x}
+func baseVar(e ast.Expr) string {
+	switch x := e.(type) {
+	case *ast.ParenExpr:
+		return baseVar(x.X)
+	case *ast.Ident:
+		return x.Name
+	case *ast.SelectorExpr:
+		if x.Sel.Name == "data" {
+			return baseVar(x.X)
+		}
+	case *ast.CompositeLit:
+		for i, el := range x.Elts {
+			if kv, ok := el.(*ast.KeyValueExpr); ok {
+				if k, ok := kv.Key.(*ast.Ident); ok && k.Name == "data" {
+					return baseVar(kv.Value)
+				}
+			} else if i == 0 {
+				return baseVar(el)
+			}
+		}
+	}
+	return ""
+}
+
+func isStoreCall(x *ast.CallExpr) bool {
+	s, ok := x.Fun.(*ast.SelectorExpr)
+	if !ok || len(x.Args) != 2 {
+		return false
+	}
+	switch s.Sel.Name {
+	case "Add", "ContainsOrAdd", "PeekOrAdd":
+		return true
+	}
+	return false
+}
+
+// ------------------------------------------------------------------------------------------------------ constants
+
+func evalInt(e ast.Expr, locals map[string]ast.Expr, depth int) (int, bool) {
+	if depth > 8 {
+		return 0, false
+	}
+	switch x := e.(type) {
+	case *ast.BasicLit:
+		v, err := strconv.Atoi(strings.ReplaceAll(x.Value, "_", ""))
+		return v, err == nil
+	case *ast.BinaryExpr:
+		a, ok1 := evalInt(x.X, locals, depth+1)
+		b, ok2 := evalInt(x.Y, locals, depth+1)
+		if ok1 && ok2 {
+			switch x.Op {
+			case token.MUL:
+				return a * b, true
+			case token.ADD:
+				return a + b, true
+			case token.SUB:
+				return a - b, true
+			case token.SHL:
+				return a << uint(b), true
+			}
+		}
+	case *ast.ParenExpr:
+		return evalInt(x.X, locals, depth+1)
+	case *ast.CallExpr: // int(x)
+		if id, ok := x.Fun.(*ast.Ident); ok && len(x.Args) == 1 && (id.Name == "int" || id.Name == "int64") {
+			return evalInt(x.Args[0], locals, depth+1)
+		}
+	case *ast.Ident:
+		if d, ok := locals[x.Name]; ok {
+			return evalInt(d, locals, depth+1)
+		}
+		if d, ok := pkgConsts[x.Name]; ok {
+			return evalInt(d, nil, depth+1)
+		}
+	}
+	return 0, false
+}
+
+// single-definition locals of a function (name -> defining expression); multiply assigned names are dropped
+func singleDefs(fd *ast.FuncDecl) map[string]ast.Expr {
+	defs := map[string]ast.Expr{}
+	count := map[string]int{}
+	ast.Inspect(fd.Body, func(n ast.Node) bool {
+		switch x := n.(type) {
+		case *ast.AssignStmt:
+			for i, l := range x.Lhs {
+				if id, ok := l.(*ast.Ident); ok && id.Name != "_" {
+					if len(x.Rhs) == len(x.Lhs) {
+						defs[id.Name] = x.Rhs[i]
+						count[id.Name]++
+					} else if i == 0 && len(x.Rhs) == 1 {
+						defs[id.Name] = x.Rhs[0]
+						count[id.Name]++
+					} else if id.Name != "err" && id.Name != "ok" {
+						count[id.Name] += 2
+					}
+				}
+			}
+		case *ast.ValueSpec:
+			for i, id := range x.Names {
+				if i < len(x.Values) {
+					defs[id.Name] = x.Values[i]
+					count[id.Name]++
+				}
+			}
+		}
+		return true
+	})
+	for k, n := range count {
+		if n != 1 {
+			delete(defs, k)
+		}
+	}
+	return defs
+}
+
+func lruNewArg(e ast.Expr) (ast.Expr, bool) {
+	c, ok := e.(*ast.CallExpr)
+	if !ok || len(c.Args) != 1 {
+		return nil, false
+	}
+	s, ok := c.Fun.(*ast.SelectorExpr)
+	if !ok || s.Sel.Name != "New" {
+		return nil, false
+	}
+	if id, ok := s.X.(*ast.Ident); !ok || id.Name != "lru" {
+		return nil, false
+	}
+	return c.Args[0], true
 }
 
 func main() {
@@ -135,10 +539,7 @@ func main() {
 	dir := filepath.Join(repo, "core", "statecache")
 	files, _ := filepath.Glob(filepath.Join(dir, "*.go"))
 	sort.Strings(files)
-	var sites []site
-	consts := map[string]int{}
-	commitLocks, getLockFree := false, true
-	found := map[string]bool{}
+	var order []*fnInfo
 	for _, f := range files {
 		if strings.HasSuffix(f, "_test.go") || strings.HasPrefix(filepath.Base(f), "verif_") {
 			continue
@@ -149,152 +550,254 @@ func main() {
 			os.Exit(1)
 		}
 		for _, d := range af.Decls {
-			fd, ok := d.(*ast.FuncDecl)
-			if !ok || fd.Body == nil {
-				continue
-			}
-			name := fd.Name.Name
-			if r := recvName(fd); r != "" {
-				name = r + "." + name
-			}
-			found[name] = true
-			// constants
-			if name == "NewStateCache" || name == "StateCache.commit" {
-				ast.Inspect(fd.Body, func(n ast.Node) bool {
-					switch x := n.(type) {
-					case *ast.CallExpr:
-						if s, ok := x.Fun.(*ast.SelectorExpr); ok && s.Sel.Name == "New" && len(x.Args) == 1 {
-							if id, ok := s.X.(*ast.Ident); ok && id.Name == "lru" {
-								if v, ok := evalInt(x.Args[0]); ok {
-									if name == "StateCache.commit" {
-										consts["capPerKey"] = v
-									} else if _, seen := consts["capKeys"]; !seen {
-										consts["capKeys"] = v
-									}
-								}
-							}
-						}
-					case *ast.AssignStmt:
-						if len(x.Lhs) == 1 && len(x.Rhs) == 1 {
-							if id, ok := x.Lhs[0].(*ast.Ident); ok && id.Name == "maxHisDepth" {
-								if v, ok := evalInt(x.Rhs[0]); ok {
-									consts["maxHisDepth"] = v
-								}
+			switch x := d.(type) {
+			case *ast.GenDecl:
+				if x.Tok == token.CONST || x.Tok == token.VAR {
+					for _, sp := range x.Specs {
+						vs := sp.(*ast.ValueSpec)
+						for i, id := range vs.Names {
+							if i < len(vs.Values) {
+								pkgConsts[id.Name] = vs.Values[i]
 							}
 						}
 					}
-					return true
-				})
-			}
-			// lock facts
-			if name == "StateCache.commit" {
-				// ignore verif yield calls when looking at the first statements
-				var st []ast.Stmt
-				for _, s := range fd.Body.List {
-					if es, ok := s.(*ast.ExprStmt); ok && strings.HasPrefix(src(es), "verifYield(") {
-						continue
-					}
-					st = append(st, s)
 				}
-				if len(st) >= 2 && src(st[0]) == "sc.lock.Lock()" && src(st[1]) == "defer sc.lock.Unlock()" {
-					commitLocks = true
+			case *ast.FuncDecl:
+				if x.Body == nil {
+					continue
 				}
-			}
-			if name == "StateCache.Get" {
-				ast.Inspect(fd.Body, func(n ast.Node) bool {
-					if c, ok := n.(*ast.CallExpr); ok {
-						if s, ok := c.Fun.(*ast.SelectorExpr); ok && (s.Sel.Name == "Lock" || s.Sel.Name == "RLock") {
-							getLockFree = false
-						}
+				fi := &fnInfo{bare: x.Name.Name, decl: x, exported: ast.IsExported(x.Name.Name)}
+				fi.name = fi.bare
+				if x.Recv != nil && len(x.Recv.List) > 0 {
+					t := x.Recv.List[0].Type
+					if st, ok := t.(*ast.StarExpr); ok {
+						t = st.X
 					}
-					return true
-				})
-			}
-			// store sites
-			switch name {
-			case "TransactionCache.Set", "TransactionCache.Remove", "BlockCache.Set", "BlockCache.setValue", "BlockCache.remove",
-				"StateCache.commit", "StateCache.Get":
-				ast.Inspect(fd.Body, func(n ast.Node) bool {
-					switch x := n.(type) {
-					case *ast.AssignStmt:
-						for i, l := range x.Lhs {
-							ix, ok := l.(*ast.IndexExpr)
-							if !ok || i >= len(x.Rhs) {
-								continue
-							}
-							if sel, ok := ix.X.(*ast.SelectorExpr); ok && sel.Sel.Name == "cache" {
-								cls := classifyStored(fd, x.Rhs[i], x.Pos())
-								if name == "BlockCache.remove" && cls == "none" {
-									// re-stores the entry just read from the same map with only the deleted flag changed
-									if id, ok := x.Rhs[i].(*ast.Ident); ok && id.Name == "value" {
-										cls = "internal"
-									}
-								}
-								sites = append(sites, site{name, "store", src(x), cls, fset.Position(x.Pos()).Line})
-							}
-						}
-					case *ast.CallExpr:
-						if s, ok := x.Fun.(*ast.SelectorExpr); ok && (s.Sel.Name == "Add" || s.Sel.Name == "ContainsOrAdd") && len(x.Args) == 2 {
-							if id, ok := s.X.(*ast.Ident); ok && (id.Name == "bvs" || id.Name == "bvsi") {
-								sites = append(sites, site{name, "store", src(x), classifyStored(fd, x.Args[1], x.Pos()), fset.Position(x.Pos()).Line})
-							}
-						}
+					if id, ok := t.(*ast.Ident); ok {
+						fi.recvType = id.Name
+						fi.name = id.Name + "." + fi.bare
 					}
-					return true
-				})
-			}
-			// return sites
-			switch name {
-			case "TransactionCache.Get", "BlockCache.Get", "StateCache.Get", "QueryBlockCache.Get":
-				ast.Inspect(fd.Body, func(n ast.Node) bool {
-					r, ok := n.(*ast.ReturnStmt)
-					if !ok {
-						return true
+					if len(x.Recv.List[0].Names) > 0 {
+						fi.recvVar = x.Recv.List[0].Names[0].Name
 					}
-					switch len(r.Results) {
-					case 2:
-						if id, ok := r.Results[0].(*ast.Ident); ok && id.Name == "nil" {
-							return true // miss
-						}
-						cls := "none"
-						if isCloneCall(r.Results[0]) {
-							cls = "clone"
-						}
-						sites = append(sites, site{name, "return", src(r), cls, fset.Position(r.Pos()).Line})
-					case 1:
-						cls := "none"
-						if c, ok := r.Results[0].(*ast.CallExpr); ok {
-							if s, ok := c.Fun.(*ast.SelectorExpr); ok && s.Sel.Name == "Get" {
-								cls = "delegate"
-							}
-						}
-						sites = append(sites, site{name, "return", src(r), cls, fset.Position(r.Pos()).Line})
+				}
+				for _, fl := range x.Type.Params.List {
+					t := src(fl.Type)
+					if len(fl.Names) == 0 {
+						fi.params = append(fi.params, param{"_", t})
 					}
-					return true
-				})
+					for _, n := range fl.Names {
+						fi.params = append(fi.params, param{n.Name, t})
+					}
+				}
+				funcs[fi.name] = fi
+				byBare[fi.bare] = append(byBare[fi.bare], fi)
+				order = append(order, fi)
 			}
 		}
 	}
+
+	// ---- constants
+	consts := map[string]int{}
+	ctor := ""
+	var perKey []int
+	perKeyOK := true
+	for _, fi := range order {
+		defs := singleDefs(fi.decl)
+		ast.Inspect(fi.decl.Body, func(n ast.Node) bool {
+			cl, ok := n.(*ast.CompositeLit)
+			if !ok {
+				return true
+			}
+			if t, ok := cl.Type.(*ast.Ident); !ok || t.Name != "StateCache" {
+				return true
+			}
+			ctor = fi.name
+			for _, el := range cl.Elts {
+				kv, ok := el.(*ast.KeyValueExpr)
+				if !ok {
+					continue
+				}
+				k, _ := kv.Key.(*ast.Ident)
+				if k == nil {
+					continue
+				}
+				val := kv.Value
+				if id, ok := val.(*ast.Ident); ok {
+					if d, ok := defs[id.Name]; ok {
+						val = d
+					}
+				}
+				switch k.Name {
+				case "maxHisDepth":
+					if v, ok := evalInt(val, defs, 0); ok {
+						consts["maxHisDepth"] = v
+					}
+				case "cache", "hashCache":
+					if a, ok := lruNewArg(val); ok {
+						if v, ok := evalInt(a, defs, 0); ok {
+							if k.Name == "cache" {
+								consts["capKeys"] = v
+							} else {
+								consts["capLinks"] = v
+							}
+						}
+					}
+				}
+			}
+			return true
+		})
+	}
+	for _, fi := range order {
+		if fi.name == ctor {
+			continue
+		}
+		defs := singleDefs(fi.decl)
+		ast.Inspect(fi.decl.Body, func(n ast.Node) bool {
+			if e, ok := n.(ast.Expr); ok {
+				if a, ok := lruNewArg(e); ok {
+					if v, ok := evalInt(a, defs, 0); ok {
+						perKey = append(perKey, v)
+					} else {
+						perKeyOK = false
+					}
+				}
+			}
+			return true
+		})
+	}
+	if perKeyOK && len(perKey) > 0 {
+		same := true
+		for _, v := range perKey {
+			same = same && v == perKey[0]
+		}
+		if same {
+			consts["capPerKey"] = perKey[0]
+		}
+	}
+
+	// ---- reachability from the API entry points through package helpers
+	reach := map[string]map[string]bool{}
+	for _, r := range apiRoots {
+		seen := map[string]bool{}
+		var visit func(f *fnInfo)
+		visit = func(f *fnInfo) {
+			if f == nil || seen[f.name] {
+				return
+			}
+			seen[f.name] = true
+			c := ctx{f, 0, map[string]bool{}}
+			ast.Inspect(f.decl.Body, func(n ast.Node) bool {
+				if call, ok := n.(*ast.CallExpr); ok {
+					for _, t := range c.callees(call) {
+						visit(t)
+					}
+				}
+				return true
+			})
+		}
+		visit(funcs[r])
+		reach[r] = seen
+	}
+	rootsOf := func(fn string) []string {
+		var out []string
+		for _, r := range apiRoots {
+			if reach[r][fn] {
+				out = append(out, r)
+			}
+		}
+		return out
+	}
+
+	// ---- sites
+	var sites []site
+	for _, fi := range order {
+		if fi.bare == "Clone" || fi.bare == "CopyFrom" {
+			continue
+		}
+		c := ctx{fi, 0, map[string]bool{}}
+		stored := map[string]bool{}
+		var fs []site
+		ast.Inspect(fi.decl.Body, func(n ast.Node) bool {
+			switch x := n.(type) {
+			case *ast.AssignStmt:
+				for i, l := range x.Lhs {
+					if _, ok := l.(*ast.IndexExpr); !ok || i >= len(x.Rhs) {
+						continue
+					}
+					cls := c.classAt(x.Rhs[i], x.Pos())
+					if b := baseVar(x.Rhs[i]); b != "" && cls != "nonvalue" {
+						stored[b] = true
+					}
+					fs = append(fs, site{fi.name, "store", src(x), cls, fset.Position(x.Pos()).Line, nil})
+				}
+			case *ast.CallExpr:
+				if isStoreCall(x) {
+					cls := c.classAt(x.Args[1], x.Pos())
+					if b := baseVar(x.Args[1]); b != "" && cls != "nonvalue" {
+						stored[b] = true
+					}
+					fs = append(fs, site{fi.name, "store", src(x), cls, fset.Position(x.Pos()).Line, nil})
+				}
+			}
+			return true
+		})
+		returnsValue := fi.decl.Type.Results != nil && len(fi.decl.Type.Results.List) > 0 &&
+			src(fi.decl.Type.Results.List[0].Type) == "Value"
+		// plain functions (Cacheable, ...) are not cache accessors unless an API entry point calls them
+		if returnsValue && (fi.recvType != "" || len(rootsOf(fi.name)) > 0) {
+			ast.Inspect(fi.decl.Body, func(n ast.Node) bool {
+				if _, ok := n.(*ast.FuncLit); ok {
+					return false
+				}
+				r, ok := n.(*ast.ReturnStmt)
+				if !ok {
+					return true
+				}
+				cls := "none"
+				if len(r.Results) > 0 {
+					if id, ok := r.Results[0].(*ast.Ident); ok && id.Name == "nil" {
+						return true // miss
+					}
+					cls = c.classAt(r.Results[0], r.Pos())
+					if b := baseVar(r.Results[0]); b != "" && stored[b] {
+						cls = "none" // the object kept in the cache is handed out as well
+					}
+				}
+				fs = append(fs, site{fi.name, "return", src(r), cls, fset.Position(r.Pos()).Line, nil})
+				return true
+			})
+		}
+		for i := range fs {
+			fs[i].roots = rootsOf(fi.name)
+		}
+		sites = append(sites, fs...)
+	}
+	sort.SliceStable(sites, func(i, j int) bool {
+		if sites[i].fn != sites[j].fn {
+			return sites[i].fn < sites[j].fn
+		}
+		return sites[i].line < sites[j].line
+	})
+
 	var sb strings.Builder
 	sb.WriteString("/-! GENERATED by go/extract/scfacts from core/statecache/*.go of the tree under test — do not edit. -/\n")
 	sb.WriteString("namespace Verif.Gen.StateCacheFacts\n\n")
-	for _, k := range []string{"capPerKey", "maxHisDepth", "capKeys"} {
-		v, ok := consts[k]
-		if !ok {
-			v = 0
-		}
-		fmt.Fprintf(&sb, "def %s : Nat := %d\n", k, v)
+	for _, k := range []string{"capPerKey", "maxHisDepth", "capKeys", "capLinks"} {
+		fmt.Fprintf(&sb, "def %s : Nat := %d\n", k, consts[k])
 	}
-	fmt.Fprintf(&sb, "\n/-- `StateCache.commit` begins with `sc.lock.Lock(); defer sc.lock.Unlock()` -/\ndef commitLocksWholeBody : Bool := %v\n", commitLocks)
-	fmt.Fprintf(&sb, "/-- `StateCache.Get` calls no `Lock`/`RLock` -/\ndef getTakesNoLock : Bool := %v\n\n", getLockFree && found["StateCache.Get"])
-	sb.WriteString("structure Site where\n  fn : String\n  kind : String\n  cls : String\n  expr : String\n  deriving DecidableEq, Repr\n\n")
-	sb.WriteString("/-- every statement that stores a value into a cache map / LRU, every `return value, true` of a Get -/\ndef sites : List Site := [\n")
+	sb.WriteString("\nstructure Site where\n  fn : String\n  kind : String\n  cls : String\n  expr : String\n  roots : List String\n  deriving DecidableEq, Repr\n\n")
+	sb.WriteString("/-- every statement that stores into a map / LRU and every `return` of a cached value, with the provenance class of\n    the value and the API entry points that reach the statement through package helpers -/\ndef sites : List Site := [\n")
 	for i, s := range sites {
 		sep := ","
 		if i == len(sites)-1 {
 			sep = ""
 		}
-		fmt.Fprintf(&sb, "  ⟨%s, %s, %s, %s⟩%s\n", strconv.Quote(s.fn), strconv.Quote(s.kind), strconv.Quote(s.class), strconv.Quote(s.expr), sep)
+		var rs []string
+		for _, r := range s.roots {
+			rs = append(rs, strconv.Quote(r))
+		}
+		fmt.Fprintf(&sb, "  ⟨%s, %s, %s, %s, [%s]⟩%s\n", strconv.Quote(s.fn), strconv.Quote(s.kind), strconv.Quote(s.class), strconv.Quote(s.expr), strings.Join(rs, ", "), sep)
 	}
 	sb.WriteString("]\n\nend Verif.Gen.StateCacheFacts\n")
 	if err := os.MkdirAll(filepath.Dir(os.Args[1]), 0o755); err != nil {
@@ -303,21 +806,4 @@ func main() {
 	if err := os.WriteFile(os.Args[1], []byte(sb.String()), 0o644); err != nil {
 		panic(err)
 	}
-}
-
-func evalInt(e ast.Expr) (int, bool) {
-	switch x := e.(type) {
-	case *ast.BasicLit:
-		v, err := strconv.Atoi(x.Value)
-		return v, err == nil
-	case *ast.BinaryExpr:
-		a, ok1 := evalInt(x.X)
-		b, ok2 := evalInt(x.Y)
-		if ok1 && ok2 && x.Op == token.MUL {
-			return a * b, true
-		}
-	case *ast.ParenExpr:
-		return evalInt(x.X)
-	}
-	return 0, false
 }
